@@ -195,6 +195,11 @@ func exec(r *engine.Rec, name string) func(path []Op, op Op) seqx.Step {
 	return func(path []Op, op Op) seqx.Step {
 		var st seqx.Step
 		ex := rt.RunOnce(rt.Config{Elide: true}, nil, []rt.ThreadSpec{{Name: "caller", Body: func() { st = body(path, op) }}})
+		if len(ex.Panics) > 0 {
+			// a call that the search makes outside its guarded steps (an observer on the replayed state) panics: the stack is corrupt
+			r.Violation("a call on a stack panics although its history is valid: "+common.PanicClass(ex.Panics[0].Value), fmt.Sprintf("%s\npath: %+v\nop: %+v", ex.Panics[0].Value, path, op), seqx.Case[Op]{Search: name, Path: path, Op: op})
+			return seqx.Step{}
+		}
 		if len(ex.Stuck) > 0 {
 			r.Violation("a call on a stack never returns (after a rejected call: something was left held)", fmt.Sprintf("stuck: %v\npath: %+v\nop: %+v", ex.SortedStuck(), path, op), seqx.Case[Op]{Search: name, Path: path, Op: op})
 			return seqx.Step{}
